@@ -48,13 +48,47 @@ fn run_check(id: &str, tier: &str) -> i32 {
     let mut rules: Vec<String> = Vec::new();
     let mut assumptions: Vec<String> = Vec::new();
     let mut engines: Vec<String> = Vec::new();
+    let failed = |outs: &Vec<checks::CheckOutcome>| outs.iter().any(|o| o.violation.is_some() || o.inconclusive.is_some());
+    // replay tier: the saved counterexamples of earlier findings (seconds)
+    let mut replayed = 0u32;
+    {
+        let mut files: Vec<std::path::PathBuf> = Vec::new();
+        let dirs: &[&str] = if std::env::var("VERIF_NO_REPLAY").is_ok() { &[] } else { &["findings", "regress"] };
+        for dir in dirs.iter() {
+            if let Ok(rd) = std::fs::read_dir(common::verif_dir().join(dir)) {
+                files.extend(rd.filter_map(|e| e.ok()).map(|e| e.path()).filter(|p| p.extension().map(|x| x == "json").unwrap_or(false)));
+            }
+        }
+        files.sort();
+        for f in files {
+            let Ok(text) = std::fs::read_to_string(&f) else { continue };
+            let Ok(v) = serde_json::from_str::<serde_json::Value>(&text) else { continue };
+            let fails: Vec<String> = match v["engine"].as_str().unwrap_or("") {
+                "lockstep" => match serde_json::from_value::<lockstep::Case>(v["case"].clone()) {
+                    Ok(case) => checks::replay_ls(id, &case).0,
+                    Err(_) => continue,
+                },
+                "stress" | "diff" | "" => continue,
+                other => match checks::replay_comp(other, v["case"].clone()) {
+                    Some(Err(m)) if v["property"].as_str() == Some(id) => vec![m],
+                    _ => vec![],
+                },
+            };
+            replayed += 1;
+            if !fails.is_empty() && !failed(&outs) {
+                outs.push(checks::CheckOutcome { violation: Some((format!("saved counterexample fails again: {}", fails.join("; ")), f.to_string_lossy().into_owned())), inconclusive: None });
+            }
+        }
+    }
+    stats.count_n("replay_tier:saved_counterexamples_replayed", replayed as u64);
     if let Some(chk) = checks::ls_check(id) {
-        outs.push(checks::run_ls_check(&chk, tier, seed, &stats));
+        if !failed(&outs) {
+            outs.push(checks::run_ls_check(&chk, tier, seed, &stats));
+        }
         rules.push(chk.rule.to_string());
         assumptions.extend(chk.assumptions.iter().map(|s| s.to_string()));
         engines.push(format!("lockstep E1 (profile {})", chk.profile.name));
     }
-    let failed = |outs: &Vec<checks::CheckOutcome>| outs.iter().any(|o| o.violation.is_some() || o.inconclusive.is_some());
     if id == "C19" {
         outs.push(checks::run_diff_check(tier, seed, &stats));
         engines.push("lockstep differential sync vs async (E1)".to_string());
@@ -103,9 +137,13 @@ fn run_check(id: &str, tier: &str) -> i32 {
         rules.push(r.to_string());
         assumptions.extend(a.iter().map(|s| s.to_string()));
     }
-    if engines.is_empty() {
+    let has_any = checks::ls_check(id).is_some() || !checks::comp_parts(id).is_empty() || !checks::stress_parts(id).is_empty() || id == "C19";
+    if !has_any {
         eprintln!("no check for {}", id);
         return 2;
+    }
+    if replayed > 0 {
+        engines.push(format!("replay tier ({} saved counterexamples)", replayed));
     }
     let violation = outs.iter().find_map(|o| o.violation.clone());
     let inconclusive = outs.iter().find_map(|o| o.inconclusive.clone());
